@@ -1,6 +1,6 @@
 #!/usr/bin/env python3
-"""Sensitivity run: apply every patch of /verif/mutants to a scratch worktree of /repo and run the check of
-the property the patch is named after.  Prints a table and writes /verif/mutants/RESULTS.json.
+"""Sensitivity run: apply every patch of /verif/mutants and /verif/seeded to a scratch worktree of /repo and run the
+check of the property the patch is named after.  Prints a table and writes /verif/mutants/RESULTS.json.
 A missed mutant says something about the checker, not about /repo; exit code is always 0."""
 import concurrent.futures
 import json
@@ -16,7 +16,8 @@ MUT = os.path.join(VERIF, "mutants")
 
 
 def one(patch):
-    name = os.path.basename(patch)[:-6]
+    seeded = patch.endswith("patch.diff")
+    name = os.path.basename(os.path.dirname(patch)) if seeded else os.path.basename(patch)[:-6]
     prop = name.split("-")[0]
     base = tempfile.mkdtemp(prefix="sens-", dir="/tmp")
     wt = os.path.join(base, "repo")
@@ -34,8 +35,9 @@ def one(patch):
         else:
             st = "broken-check" if "cannot analyse" not in p.stdout else "does-not-compile"
             keys = re.findall(r"^BROKEN.*$", p.stdout, re.M)[:1]
-        expect = open(patch).readline().strip().replace("# expected reporter: ", "")
-        return {"mutant": name, "property": prop, "status": st, "reported": keys[:4], "expected": expect}
+        expect = "" if seeded else open(patch).readline().strip().replace("# expected reporter: ", "")
+        return {"mutant": name, "property": prop, "status": st, "reported": keys[:4], "expected": expect,
+                "origin": "independent sub-agent (seeded/)" if seeded else "catalogue (mutants/)"}
     finally:
         subprocess.run(["git", "-C", "/repo", "worktree", "remove", "--force", wt], capture_output=True)
         shutil.rmtree(base, ignore_errors=True)
@@ -44,6 +46,10 @@ def one(patch):
 def main():
     only = sys.argv[1:] 
     patches = sorted(os.path.join(MUT, f) for f in os.listdir(MUT) if f.endswith(".patch") and (not only or any(f.startswith(o) for o in only)))
+    SEED = os.path.join(VERIF, "seeded")
+    if os.path.isdir(SEED):
+        patches += sorted(os.path.join(SEED, d, "patch.diff") for d in os.listdir(SEED)
+                          if os.path.exists(os.path.join(SEED, d, "patch.diff")) and (not only or any(d.startswith(o) for o in only)))
     out = []
     with concurrent.futures.ThreadPoolExecutor(max_workers=int(os.environ.get("SENS_JOBS", "6"))) as ex:
         for r in ex.map(one, patches):
